@@ -7,6 +7,7 @@ import (
 	"net/mail"
 	"net/url"
 	"regexp"
+	"strings"
 	"sync"
 	"time"
 
@@ -114,7 +115,11 @@ func ValidateFormat(name string, val string, f Format) error {
 			}
 		}
 	case FormatURI:
-		_, err = url.ParseRequestURI(val)
+		// ParseRequestURI assumes that there is no fragment: check it apart.
+		uri, fragment, _ := strings.Cut(val, "#")
+		if _, err = url.ParseRequestURI(uri); err == nil {
+			err = validateURIFragment(fragment)
+		}
 	case FormatMAC:
 		_, err = net.ParseMAC(val)
 	case FormatCIDR:
@@ -134,6 +139,18 @@ func ValidateFormat(name string, val string, f Format) error {
 		return InvalidFormatError(name, val, f, err)
 	}
 	return nil
+}
+
+// validateURIFragment returns an error if the fragment of a URI contains an
+// ASCII control character or an invalid percent-encoded sequence.
+func validateURIFragment(fragment string) error {
+	for i := 0; i < len(fragment); i++ {
+		if b := fragment[i]; b < ' ' || b == 0x7f {
+			return fmt.Errorf("invalid control character in URI fragment")
+		}
+	}
+	_, err := url.PathUnescape(fragment)
+	return err
 }
 
 // knownPatterns records the compiled patterns.
